@@ -795,3 +795,5 @@ TIERS = {
 }
 EXPECTED_PROBES = ['insert-in-the-middle', 'auto-category-added', 'filter-of-derived', 'extend-of-derived',
                    'extend-merged-into-auto-category']
+
+STATES_MEASURE = ('distinct canonical model states reached: category order, contents by spec tag, unknown-specs, frozen flag')
